@@ -240,8 +240,52 @@ def adjacent_defects():
                         yield request_for(ctx % (fill + u), o, pol)
 
 
+# ---------------------------------------------------------------------------------------------------------------------
+# systematic PAIRS of structural fragments (well-formed and of every defect class) inside one construct: the recovery of the
+# first defect leaves the state in which the second is met (e.g. a text field in key position whose text is then refused as a
+# table index: /repo 3c6f46e).  Oracle as everywhere in this family; memory safety observed by ASan on every request.
+
+TABLE_FRAGS = ["'k':1", "'k':", ":1", ":", "k:1", "k:", "k", "'v'", "\n;k\n;:1", "\n;k\n;:", "\n;k\n;", "'k\x01':1", "\n;k\x01y\n;:1",
+               "\n;\ud800\n;:1", "'k' :1", "'k':[1]", "'k':{'j':2}", "[", "]", "{", "'':1", "'k':'v'x", "'k", "\"\"\"k\"\"\":1", "data_x",
+               "save_", "loop_", "_n", "'k':'k':1", "\n;k\n;:\n;v\n;", "'K':2", "k\x01:1", ":\x01", "$k:1", "'k':$v", "#c\n"]
+LIST_FRAGS = ["1", "'q'", "[", "]", "{", "}", "[1]", "{'k':1}", "'k':", "k:1", ":", "\n;t\n;", "\n;t\x01\n;", "_n", "data_x", "save_", "loop_",
+              "stop_", "$x", "'q'x", "'q", "?", ".", "\x01", "a[b", "#c\n"]
+HEADER_FRAGS = ["_a", "_A", "_b", "_", "_a\x01", "_b.c", "1", "'q'", "loop_", "[", "{", "data_x", "save_", "\n;t\n;", "_" + "n" * 2050, "$x", "#c\n"]
+PACKET_FRAGS = ["1", "2 3", "1 2 3", "'q'", "[1]", "{'k':1}", "{'k':", "[", "]", "}", "?", ".", "_c 1", "loop_", "data_x", "save_", "k:1", ":1",
+                "\n;t\n;", "'q", "stop_", "$x", ""]
+PAIR_POLICIES = ["a", "d", "r0:7777", "r1:7777", "r2:7777", "r1:-1"]
+
+
+def structural_pairs(tier):
+    base = {"mfd": 1, "fold": 0, "prefix": 0, "ews": "", "eeol": "", "nutf8": 0}
+    thorough = tier != "quick"
+    n = 0
+
+    def emit(text, dia, i, j):
+        nonlocal n
+        n += 1
+        pols = PAIR_POLICIES if thorough else [PAIR_POLICIES[(i + 3 * j + n) % len(PAIR_POLICIES)], "a"][: 1 + (n % 2)]
+        for pol in pols:
+            yield request_for(text, dict(base, dia=dia, target="e" if (n % 5) else "n"), pol)
+    ctx_table = ["data_a\n_t { %s %s }\n_z 1\n", "data_a\n_t { 'a':0 %s %s", "data_a _l [ { %s %s } 2 ]\n_z 1\n",
+                 "data_a loop_ _a _b { %s %s } 2 3 4\n", "data_a _t {'o':{ %s %s } 'p':3}\n"]
+    ctx_list = ["data_a\n_l [ %s %s ]\n_z 1\n", "data_a _l [ 0 %s %s", "data_a _t {'k':[ %s %s ] 'j':2}\n", "data_a loop_ _a _b [ %s %s ] 2\n"]
+    ctx_head = ["data_a\nloop_ %s %s 1 2 3 4\n_z 1\n", "data_a save_f loop_ _q %s %s 1 2 3\nsave_\n", "data_a _a 0 loop_ %s %s 1 2"]
+    ctx_pack = ["data_a\nloop_ _a _b %s %s\n_z 1\n", "data_a loop_ _a _b _c 1 2 3 %s %s", "data_a save_f loop_ _a _b %s %s save_ _z 1\n"]
+    for frags, ctxs, dias in ((TABLE_FRAGS, ctx_table, (2,)), (LIST_FRAGS, ctx_list, (2,)), (HEADER_FRAGS, ctx_head, (2, 1)),
+                              (PACKET_FRAGS, ctx_pack, (2, 1))):
+        for i, f1 in enumerate(frags):
+            for j, f2 in enumerate(frags):
+                cs = ctxs if thorough else [ctxs[(i + j) % len(ctxs)]]
+                for ctx in cs:
+                    for dia in (dias if thorough else dias[: 1 + ((i + j) % len(dias) == 1)]):
+                        yield from emit(ctx % (f1, f2), dia, i, j)
+
+
 def generate(seed, tier):
     for req in adjacent_defects():
+        yield req
+    for req in structural_pairs(tier):
         yield req
     r = rng(seed, FAMILY)
     n_docs = 700 if tier == "quick" else 30000
